@@ -128,8 +128,10 @@ def handle (op : String) (j : Json) : Except String Json := do
     let recs ← toRecs (← getIntListList j "recs")
     let size ← getNat j "size"
     let kind ← getStr j "kind"
-    let r := fromIntervalsArr (recs.map (·.1)) (recs.map (·.2.1)) size (recs.map (·.2.2)) (0 : Int)
-    pure (reply (rleJ kind r) (some (Json.mkObj [("dense", intList (nz kind (specDense (0 : Int) recs size)))])))
+    -- values and default arrive in the common result type `np.result_type(values, default_value)`
+    let dflt : Int := match getInt j "dflt" with | .ok v => v | .error _ => 0
+    let r := fromIntervalsArr (recs.map (·.1)) (recs.map (·.2.1)) size (recs.map (·.2.2)) dflt
+    pure (reply (rleJ kind r) (some (Json.mkObj [("dense", intList (nz kind (specDense dflt recs size)))])))
   | "track" | "geo_track" =>
     let sizes ← getNatList j "sizes"
     let recs ← toCRecs (← getIntListList j "recs")
